@@ -242,13 +242,14 @@ class Bus (objects.DBusObject):
             elif mt == 4:
                 self.signalReceived(p, msg)
 
-            if (
-                    msg.destination
-                    and not msg.destination == 'org.freedesktop.DBus'
-            ):
-                self.sendMessage(msg)
-
-            self.router.routeMessage(msg)
+            if msg.destination:
+                # addressed messages go to the owner of the destination name
+                # only (those for the bus itself were handled above)
+                if not msg.destination == 'org.freedesktop.DBus':
+                    self.sendMessage(msg)
+            else:
+                # broadcast: every connection holding a matching rule
+                self.router.routeMessage(msg)
         except DError as e:
             sig = None
             body = None
